@@ -237,7 +237,11 @@ def _entrypoint_disagreements(c, zs, ER):
                 dis.append(("evaluate_circuit:output-undefined", lab, z3.BoolVal(True)))
             continue
         cmp("evaluate_circuit", lab, v)
-    for lab in c.gates:
+    labs = list(c.gates)
+    if len(labs) > 60:  # per-gate cones of a large circuit: a spread of 40 gates (first, last and every k-th)
+        step = max(1, len(labs) // 38)
+        labs = sorted(set(labs[::step] + labs[:1] + labs[-1:]), key=labs.index)
+    for lab in labs:
         sub = c.evaluate_circuit(dict(sym), outputs=[lab])
         cmp("evaluate_circuit(outputs=[g])", lab, sub[lab])
     outs = c.evaluate_circuit_outputs(dict(sym))
@@ -419,10 +423,14 @@ def history_circuit(rnd, tag):
 def compose_concrete(p, item, tier, seed):
     kind, arg = item
     if kind == "feature":
-        for name, c in circgen.feature_circuits() + circgen.large_circuits(0):
+        fam = circgen.feature_circuits()
+        for name, c in fam[arg::4] if arg is not None else fam:
             _check_concrete_circuit(p, "feature:" + name, c)
             # relabelled + re-ordered insertion variant must behave identically
             _check_concrete_circuit(p, "feature-relabelled:" + name, _relabel_shuffle(c, random.Random(seed + 1)))
+    elif kind == "large":
+        name, c = circgen.large_circuits(0)[arg[0]]
+        _check_concrete_circuit(p, "feature:" + name, c if not arg[1] else _relabel_shuffle(c, random.Random(seed + 1)))
     elif kind == "history":
         rnd = random.Random(arg)
         for i in range(40 if tier == "quick" else 120):
@@ -643,7 +651,7 @@ def run(rep, tier, seed, only=None):
         rep.pmap(table_agreement, ["circuit_search.Operation", "circuit_search._tt_to_gate_type",
                                    "arithmetics._utils.binary_tt_to_type", "subcircuit._PatternOperations"])
     if sub("feature"):
-        rep.pmap(compose_concrete, [("feature", None)])
+        rep.pmap(compose_concrete, [("feature", k) for k in range(4)] + [("large", (i, r)) for i in (0, 1) for r in (False, True)])
     if sub("seeded"):
         n_seeds = 64 if thorough else 16
         per = 60 if thorough else 16
